@@ -5,6 +5,7 @@ import (
 	"go/ast"
 	"go/token"
 	"go/types"
+	"regexp"
 	"strings"
 
 	"octoverif/core"
@@ -230,6 +231,19 @@ func checkWrapper(c *core.Ctx) {
 		}
 		c.Decide(ok, "ORD2", key+"/end of stream", fn.Decl.Pos(), 1, "return flush(WatermarkMaxValue)", "after the source ends everything pending must be sent (flush up to WatermarkMaxValue) as the function's result")
 	}
+	// the []bool made beside the pending list marks records that need no further attention in this round
+	crossedName := ""
+	var crossedObj types.Object
+	ast.Inspect(flush.Body, func(n ast.Node) bool {
+		if as, ok := n.(*ast.AssignStmt); ok && len(as.Lhs) == 1 && len(as.Rhs) == 1 {
+			if call, ok := as.Rhs[0].(*ast.CallExpr); ok && core.ExprStr(call.Fun) == "make" && len(call.Args) >= 2 && core.ExprStr(call.Args[0]) == "[]bool" {
+				if id, ok := as.Lhs[0].(*ast.Ident); ok && crossedName == "" {
+					crossedName, crossedObj = id.Name, info.ObjectOf(id)
+				}
+			}
+		}
+		return true
+	})
 	// PART: the tests of the two partition loops and the hand-over of the kept records
 	{
 		var conds []ast.Expr
@@ -242,10 +256,28 @@ func checkWrapper(c *core.Ctx) {
 			if fs, ok := st.(*ast.ForStmt); ok {
 				loops = append(loops, fs)
 			}
-			if as, ok := st.(*ast.AssignStmt); ok && len(as.Lhs) == 1 && core.ExprStr(as.Lhs[0]) == "pending" && strings.Contains(core.ExprStr(as.Rhs[0]), "ewPending") {
-				newPendingAssigned = true
+			if as, ok := st.(*ast.AssignStmt); ok && len(as.Lhs) == 1 && len(as.Rhs) == 1 && as.Tok == token.ASSIGN && core.ExprStr(as.Lhs[0]) == "pending" {
+				// the right-hand side is the list the kept records were appended to
+				if id, ok := as.Rhs[0].(*ast.Ident); ok && regexp.MustCompile(`\b`+id.Name+` = append\(`+id.Name+`, `).MatchString(core.FullStr(flush.Body)) {
+					newPendingAssigned = true
+				}
 			}
 		}
+		// the partition loops are the ones that do not emit
+		var partLoops []ast.Stmt
+		for _, l := range loops {
+			emits := false
+			ast.Inspect(l, func(n ast.Node) bool {
+				if call, ok := n.(*ast.CallExpr); ok && p.CalleeName(info, call) == "value:produce" {
+					emits = true
+				}
+				return true
+			})
+			if !emits {
+				partLoops = append(partLoops, l)
+			}
+		}
+		loops = partLoops
 		for _, l := range loops {
 			ast.Inspect(l, func(n ast.Node) bool {
 				if is, ok := n.(*ast.IfStmt); ok {
@@ -303,28 +335,66 @@ func checkWrapper(c *core.Ctx) {
 		c.Decide(newPendingAssigned, "PART", key+"/hand-over", flush.Pos(), 1, "pending = newPending", "the kept records must become the new pending list")
 		// collecting loop: appended to newPending and crossed out
 		if len(loops) >= 2 {
+			// names are taken from the code: the loop's index, the list it walks, the []bool made beside it
 			s := core.FullStr(loops[1])
-			ok2 := strings.Contains(s, "append(newPending, pending[i])") && strings.Contains(s, "crossedOut[i] = true")
+			idx, lst := "i", "pending"
+			if rs, ok := loops[1].(*ast.RangeStmt); ok && rs.Key != nil {
+				idx, lst = core.ExprStr(rs.Key), core.ExprStr(rs.X)
+			}
+			ok2 := regexp.MustCompile(`append\(\w+, `+regexp.QuoteMeta(lst+"["+idx+"]")+`\)`).MatchString(s) && crossedName != "" && strings.Contains(s, crossedName+"["+idx+"] = true")
 			c.Decide(ok2, "PART", key+"/collect", loops[1].Pos(), 1, "kept records are collected and excluded from this round", "a kept record must be appended to newPending and crossed out for this round")
 		}
 	}
 	// CANCEL
+	// the emission loop is the loop of the flush that produces; the partner search is the counted loop it reaches
+	// (in its own body or in a helper) — labels or not
 	var pendingLoop, findLoop ast.Stmt
-	ast.Inspect(flush.Body, func(n ast.Node) bool {
-		if ls, ok := n.(*ast.LabeledStmt); ok {
-			switch {
-			case pendingLoop == nil:
-				pendingLoop = ls
-			case findLoop == nil:
-				findLoop = ls
-			}
+	var pendingRun ast.Stmt // pendingLoop with its label, if it has one
+	for _, st := range flush.Body.List {
+		inner := st
+		if ls, ok := st.(*ast.LabeledStmt); ok {
+			inner = ls.Stmt
 		}
-		return true
-	})
-	if pendingLoop == nil || findLoop == nil {
-		c.Unknown("CANCEL", key, flush.Pos(), "labelled emission / partner-search loops not found")
+		rs, ok := inner.(*ast.RangeStmt)
+		if !ok {
+			continue
+		}
+		produces := false
+		ast.Inspect(rs.Body, func(n ast.Node) bool {
+			if call, ok := n.(*ast.CallExpr); ok && p.CalleeName(info, call) == "value:produce" {
+				produces = true
+			}
+			return true
+		})
+		if produces {
+			pendingLoop, pendingRun = rs, st
+		}
+	}
+	if pendingLoop != nil {
+		for _, body := range bodyClosure(p, fn.Pkg.PkgPath, info, pendingLoop.(*ast.RangeStmt).Body) {
+			ast.Inspect(body, func(n ast.Node) bool {
+				if fs, ok := n.(*ast.ForStmt); ok && findLoop == nil && fs.Init != nil && fs.Cond != nil {
+					findLoop = fs
+				}
+				return true
+			})
+		}
+	}
+	if pendingLoop == nil || findLoop == nil || crossedObj == nil {
+		c.Unknown("CANCEL", key, flush.Pos(), "emission loop / partner-search loop / crossed-out marks not found")
 		return
 	}
+	outerVar, pendingName := "i", "pending"
+	if rs := pendingLoop.(*ast.RangeStmt); rs.Key != nil {
+		outerVar, pendingName = core.ExprStr(rs.Key), core.ExprStr(rs.X)
+	}
+	innerVar := ""
+	if as, ok := findLoop.(*ast.ForStmt).Init.(*ast.AssignStmt); ok && len(as.Lhs) == 1 {
+		innerVar = core.ExprStr(as.Lhs[0])
+	}
+	// loop variables carry the tag of their loop (i@L1)
+	untag := func(s string) string { return loopTagRE.ReplaceAllString(s, "") }
+	isOuter := func(idx string) bool { return untag(idx) == outerVar }
 	outerCls := []string{"I:crossed", "I:retraction", "I:addition"}
 	innerCls := []string{"J:crossed", "J:addition", "J:mismatch", "J:match"}
 	for _, ic := range outerCls {
@@ -341,22 +411,22 @@ func checkWrapper(c *core.Ctx) {
 		}
 		in.Hooks.Loop = func(st *absint.State, loop ast.Stmt) *absint.LoopSpec {
 			switch {
-			case loop == pendingLoop.(*ast.LabeledStmt).Stmt:
+			case loop == pendingLoop:
 				return &absint.LoopSpec{Cases: []string{ic}, MaxIter: 1, RefStep: func(ref, cs string) string { return ref }}
-			case loop == findLoop.(*ast.LabeledStmt).Stmt:
+			case loop == findLoop:
 				return &absint.LoopSpec{Cases: innerCls, MaxIter: 2, RefStep: func(ref, cs string) string { return ref }}
 			}
 			return &absint.LoopSpec{Cases: []string{"K"}, MaxIter: 1, MinIter: 1, RefStep: func(ref, cs string) string { return ref }}
 		}
 		in.Hooks.Ident = func(st *absint.State, obj types.Object) (absint.Val, bool) {
-			if obj.Name() == "crossedOut" {
+			if obj == crossedObj {
 				return absint.S("CROSSED"), true
 			}
 			return nil, false
 		}
 		in.Hooks.Index = func(st *absint.State, x, i absint.Val) (absint.Val, bool) {
 			if x.Canon() == "CROSSED" {
-				if strings.HasPrefix(i.Canon(), "j") {
+				if !isOuter(i.Canon()) {
 					return absint.Bool(clsOf(st, "J:") == "J:crossed"), true
 				}
 				return absint.Bool(clsOf(st, "I:") == "I:crossed"), true
@@ -364,14 +434,26 @@ func checkWrapper(c *core.Ctx) {
 			return nil, false
 		}
 		in.Hooks.Field = func(st *absint.State, base absint.Val, sel string) (absint.Val, bool) {
-			if sel == "Retraction" && strings.HasPrefix(base.Canon(), "pending[") {
-				if strings.HasPrefix(base.Canon(), "pending[j") {
+			if sel == "Retraction" && strings.HasPrefix(base.Canon(), pendingName+"[") {
+				if untag(base.Canon()) != pendingName+"["+outerVar+"]" {
 					j := clsOf(st, "J:")
 					return absint.Bool(j != "J:addition"), true
 				}
 				return absint.Bool(clsOf(st, "I:") == "I:retraction"), true
 			}
 			return nil, false
+		}
+		in.Hooks.Cond = func(st *absint.State, atom string) (bool, bool) {
+			// the partner's index starts above the (non-negative) index of the record at hand: it is never the
+			// "not found" value of a search helper
+			atom = untag(atom)
+			if innerVar != "" && (atom == "(-1 == "+innerVar+")" || atom == "("+innerVar+" == -1)" || atom == "("+innerVar+" < 0)") {
+				return false, true
+			}
+			if innerVar != "" && atom == "(0 <= "+innerVar+")" {
+				return true, true
+			}
+			return false, false
 		}
 		in.Hooks.Call = chainCall(func(st *absint.State, call *ast.CallExpr, callee string, recv absint.Val, args []absint.Val) (absint.Val, bool) {
 			switch callee {
@@ -387,7 +469,7 @@ func checkWrapper(c *core.Ctx) {
 			}
 			return nil, false
 		}, ctorHook(ids), errorfHook)
-		outs, err := in.Run(&ast.FuncType{Params: &ast.FieldList{}}, nil, &ast.BlockStmt{List: []ast.Stmt{pendingLoop}}, nil, "")
+		outs, err := in.Run(&ast.FuncType{Params: &ast.FieldList{}}, nil, &ast.BlockStmt{List: []ast.Stmt{pendingRun}}, nil, "")
 		ckey := key + "/emission/" + ic
 		if err != nil {
 			c.Unknown("CANCEL", ckey, pendingLoop.Pos(), err.Error())
@@ -405,7 +487,7 @@ func checkWrapper(c *core.Ctx) {
 			for _, e := range o.Events {
 				if e.Name == "PRODUCE" {
 					produced++
-					if len(e.Args) != 2 || !strings.HasPrefix(e.Args[1].Canon(), "pending[i") {
+					if len(e.Args) != 2 || untag(e.Args[1].Canon()) != pendingName+"["+outerVar+"]" {
 						bad = "something other than the pending record itself is emitted: " + e.String()
 					}
 				}
@@ -458,3 +540,5 @@ func checkWrapper(c *core.Ctx) {
 	}
 	_ = info
 }
+
+var loopTagRE = regexp.MustCompile(`@L\d+`)
